@@ -1083,7 +1083,9 @@ class _GenerateRenderMethod:
         self.printer.writelines(None, "return [%s]" % (",".join(export)), None)
 
         self.printer.writelines(
-            # push on caller for nested call
+            # push on caller for nested call; a caller that is waiting for
+            # a call whose arguments are being evaluated is put back
+            "__M_nextcaller = context.caller_stack.nextcaller",
             "context.caller_stack.nextcaller = "
             "runtime.Namespace('caller', context, "
             "callables=ccall(__M_caller))",
@@ -1094,7 +1096,7 @@ class _GenerateRenderMethod:
             "__M_writer(%s)"
             % self.create_filter_callable([], node.expression, True),
             "finally:",
-            "context.caller_stack.nextcaller = None",
+            "context.caller_stack.nextcaller = __M_nextcaller",
             None,
         )
 
